@@ -5,6 +5,12 @@
 
 static uint8_t *h_dns_answer;
 static int h_dns_anslen, h_dns_retlen;
+/* a queue of answers for operations that ask more than one question (NAPTR, then SRV): taken in order, before the single answer */
+#define H_DNS_MAXQ 4
+static struct { uint8_t *b; int len, retlen; } h_dns_q[H_DNS_MAXQ];
+static int h_dns_qn, h_dns_qi;
+static char h_dns_qlog[3 * 2400];
+extern void h_transcript_note(const char *s);
 static char h_dns_qname[1100];
 static int h_dns_qtype = -1;
 
@@ -19,6 +25,25 @@ static int h_res_nquery(res_state s, const char *name, int class, int type, u_ch
     (void)class;
     snprintf(h_dns_qname, sizeof(h_dns_qname), "%s", name);
     h_dns_qtype = type;
+    if (h_dns_qn) { /* a scripted sequence of answers: each question is recorded, so that the name decodings that follow can be told apart */
+        char tmp[2300], *q = tmp;
+        q += sprintf(q, " dq:%d:", type);
+        if (!*name)
+            q += sprintf(q, "-");
+        for (const char *c = name; *c && q < tmp + sizeof(tmp) - 4; c++)
+            q += sprintf(q, "%02x", (unsigned char)*c);
+        h_transcript_note(tmp);
+        snprintf(h_dns_qlog + strlen(h_dns_qlog), sizeof(h_dns_qlog) - strlen(h_dns_qlog), " q%s", tmp + 3);
+        if (h_dns_qi >= h_dns_qn || h_dns_q[h_dns_qi].retlen < 0) {
+            h_dns_qi++;
+            s->res_h_errno = HOST_NOT_FOUND;
+            return -1;
+        }
+        n = h_dns_q[h_dns_qi].len < anslen ? h_dns_q[h_dns_qi].len : anslen;
+        if (n > 0)
+            memcpy(ans, h_dns_q[h_dns_qi].b, n);
+        return h_dns_q[h_dns_qi++].retlen;
+    }
     if (h_dns_retlen < 0) {
         s->res_h_errno = HOST_NOT_FOUND;
         return -1;
@@ -34,7 +59,6 @@ static int h_res_nsearch(res_state s, const char *name, int class, int type, u_c
     h_dns_searched = 1;
     return h_res_nquery(s, name, class, type, ans, anslen);
 }
-extern void h_transcript_note(const char *s);
 extern char *h_transcript_take(void);
 static const u_char *h_dns_base;
 /* the resolver library's name decoding: recorded, so that the model can take it as given */
@@ -65,7 +89,25 @@ static int h_ns_name_uncompress(const u_char *base, const u_char *eom, const u_c
 const char *h_dns_last_qname(void) { return h_dns_qname; }
 int h_dns_last_qtype(void) { return h_dns_qtype; }
 int h_dns_searched_take(void) { int r = h_dns_searched; h_dns_searched = 0; return r; }
+const char *h_dns_qlog_get(void) { return h_dns_qlog; }
+void h_dns_script_reset(void) {
+    h_dns_qlog[0] = 0;
+    for (int i = 0; i < h_dns_qn; i++)
+        (free)(h_dns_q[i].b);
+    h_dns_qn = h_dns_qi = 0;
+}
+int h_dns_script_add(const uint8_t *b, int len, int retlen) {
+    if (h_dns_qn == H_DNS_MAXQ)
+        return 0;
+    h_dns_q[h_dns_qn].b = (malloc)(len > 0 ? len : 1);
+    if (len > 0)
+        memcpy(h_dns_q[h_dns_qn].b, b, len);
+    h_dns_q[h_dns_qn].len = len;
+    h_dns_q[h_dns_qn++].retlen = retlen;
+    return 1;
+}
 void h_dns_set_answer(const uint8_t *b, int len, int retlen) {
+    h_dns_script_reset();
     (free)(h_dns_answer);
     h_dns_answer = (malloc)(len > 0 ? len : 1);
     if (len > 0)
